@@ -295,6 +295,45 @@ def z3_check(pc: Sequence[T], goal: Optional[T], timeout_ms: int, want_model=Tru
     return result
 
 
+def _crosscheck(solver) -> None:
+    """A5: in the thorough tier every `unsat` of z3 5.1 (discharged goal or pruned branch) is put to a second
+    solver build as SMT-LIB text of the same assertions (5 s): the system's z3 4.8.12.  (cvc5 - the Debian
+    build without libpoly and the 1.4 wheel - leaves these non-linear queries `unknown` at 8-10 s, so it is
+    of no use here.)  The outcome is appended to $PYVC_CROSSCHECK; an answer `sat` is a solver disagreement,
+    reported by the driver as a checker error."""
+    import os
+
+    log = os.environ.get("PYVC_CROSSCHECK")
+    if not log:
+        return
+    import hashlib
+    import subprocess
+    import tempfile
+
+    text = "(set-logic ALL)\n" + solver.to_smt2()
+    key = hashlib.sha1(text.encode()).hexdigest()[:16]
+    out = "error"
+    try:
+        with tempfile.NamedTemporaryFile("w", suffix=".smt2", delete=False) as fh:
+            fh.write(text)
+            path = fh.name
+        try:
+            pr = subprocess.run(["/usr/bin/z3", "-T:5", path], capture_output=True, text=True, timeout=20)
+            first = (pr.stdout.strip().splitlines() or ["error"])[0]
+            out = first if first in ("unsat", "sat", "unknown") else ("timeout" if "timeout" in pr.stdout + pr.stderr or pr.returncode < 0 else "error:" + (pr.stderr.strip() or pr.stdout.strip())[:80].replace("\n", " "))
+        except subprocess.TimeoutExpired:
+            out = "timeout"
+        finally:
+            if out == "sat":
+                os.replace(path, log + "." + key + ".smt2")
+            else:
+                os.unlink(path)
+    except OSError as e:
+        out = f"error:{e}"
+    with open(log, "a") as fh:
+        fh.write(f"{key} {out}\n")
+
+
 def _z3_check(pc: Sequence[T], goal: Optional[T], timeout_ms: int, want_model=True):
     zc = Z3Ctx()
     fs = [zc.tr(c) for c in pc]
@@ -310,6 +349,7 @@ def _z3_check(pc: Sequence[T], goal: Optional[T], timeout_ms: int, want_model=Tr
     r = s.check()
     dt = time.time() - t0
     if r == z3.unsat:
+        _crosscheck(s)
         return "unsat", None, dt
     if r == z3.sat:
         env = None
